@@ -883,11 +883,19 @@ def _check_section_name(name: bytes) -> bool:
 def _strip_comments(line: bytes) -> bytes:
     comment_bytes = {ord(b"#"), ord(b";")}
     quote = ord(b'"')
+    backslash = ord(b"\\")
     string_open = False
+    escaped = False
     # Normalize line to bytearray for simple 2/3 compatibility
     for i, character in enumerate(bytearray(line)):
+        # A backslash escapes the next character (e.g. \" inside a
+        # quoted subsection name does not close the string)
+        if escaped:
+            escaped = False
+        elif character == backslash:
+            escaped = True
         # Comment characters outside balanced quotes denote comment start
-        if character == quote:
+        elif character == quote:
             string_open = not string_open
         elif not string_open and character in comment_bytes:
             return line[:i]
